@@ -674,5 +674,26 @@ func LoadAllSpecs(repo, specDir string, pkgDirs map[string]string) (*Specs, erro
 			return nil, err
 		}
 	}
+	// a clause restricted to properties (ensures[name@Cxx]) must be an obligation of at least one
+	// check: one of those properties has to include the function, or nobody would ever prove it
+	for _, c := range sp.Funcs {
+		if c.Trusted || c.NoBody {
+			continue
+		}
+		for _, cl := range c.Ensures {
+			if len(cl.Props) == 0 {
+				continue
+			}
+			ok := false
+			for _, p := range cl.Props {
+				if hasProp(c.Props, p) {
+					ok = true
+				}
+			}
+			if !ok {
+				return nil, fmt.Errorf("%s:%d: ensures[%s] of %s is restricted to %v, none of which includes the function (props %v): it would never be checked", cl.File, cl.Line, cl.Name, c.Key, cl.Props, c.Props)
+			}
+		}
+	}
 	return sp, nil
 }
